@@ -158,6 +158,10 @@ def msg_oracle(case, out):
     return None
 
 
+def answered(x):
+    """a harness / runner line that is an answer (not empty, not the driver's marker for a dead or silent process)"""
+    return bool(x) and not x.startswith(("CRASH", "HANG", "TIMEOUT", "NOANSWER"))
+
 def run(chk, replay=None):
     return run_rt(chk, replay, oracle, "C01", extra=(gen_msg_cases, msg_oracle, "mrt"))
 
@@ -190,14 +194,21 @@ def run_rt(chk, replay, oracle, prop, extra=None):
     model = [norm_model(l) for l in core.run_lines(core.RUNNER, cases)] if gate is not None and core.os.path.exists(core.RUNNER) else None
     failing = []      # (case, reason)
     mism = []
+    compared = oracled = 0      # pairs (implementation answer, model answer) actually compared / answers put to the oracle
     for prof, b in bins:
         impl = core.run_lines(b, cases)
         for c, o in zip(cases, impl):
+            oracled += 1
             why = oracle(c, o)
             if why:
                 failing.append((c, "%s [%s build]" % (why, prof), o))
         if model is not None:
             for c, o, m in zip(cases, impl, model):
+                if not (answered(o) and answered(m)):
+                    if answered(o) != answered(m):
+                        mism.append((c, o, m, prof))
+                    continue
+                compared += 1
                 if norm_impl(o) != m:
                     mism.append((c, o, m, prof))
     for c in cases:
@@ -206,7 +217,8 @@ def run_rt(chk, replay, oracle, prop, extra=None):
         else:
             chk.count(c, True)
     chk.sample(cases[0]); chk.sample(cases[len(cases) // 2]); chk.sample(cases[-1])
-    chk.cov["disagreements_checked"] = len(cases) * len(bins)
+    chk.cov["disagreements_checked"] = compared
+    chk.cov["oracle_checked"] = oracled
     chk.cov["model_impl_mismatches"] = len(mism)
     rts = [c for c in cases if c.startswith("rt ")]
     chk.cov["distribution"] = dict(
